@@ -208,7 +208,12 @@ func RunCase(c *Case) (msg string, labels []string) {
 	}
 	cmp := func(tr *runner.Trace, what string, p Point) string {
 		if tr.HasKind(wz.KStack) {
-			return ""
+			if c.Engine == "interpreter" {
+				// the interpreter's limit counts call frames, which no configuration point changes:
+				// the baseline did not exhaust the stack, so the point must not either
+				return fmt.Sprintf("behaviour differs from baseline under %s %+v (engine %s): the call stack is exhausted although it is not under the baseline: %v", what, p, c.Engine, tr.Steps)
+			}
+			return "" // native stack use may legitimately differ between configurations
 		}
 		if d := runner.Diff(&base, tr, "baseline", what); d != "" {
 			return fmt.Sprintf("behaviour differs from baseline under %s %+v (engine %s): %s", what, p, c.Engine, d)
@@ -340,6 +345,10 @@ func prop(t *rapid.T) {
 		lcfg.MaxFuncs = rapid.IntRange(1, 6).Draw(t, "libfuncs")
 		lib = wasmgen.Generate(t, lcfg)
 		cfg.Lib, cfg.LibName = lib, "lib"
+	}
+	if rapid.IntRange(0, 5).Draw(t, "longfuel") == 0 {
+		cfg.FuelInit = 16 * 3000 // long call chains: tail-call loops of thousands of steps must not need stack
+		cfg.TailRich = true
 	}
 	m := wasmgen.Generate(t, cfg)
 	c := &Case{Module: m, Lib: lib, Fuel: cfg.FuelInit, Engine: rapid.SampledFrom(wz.Engines).Draw(t, "engine"), Features: uint64(fc.a)}
